@@ -22,10 +22,10 @@ def Unless(c, b): return {'t': 'if', 'form': 'unless', 'cs': [{'c': c, 'b': []}]
 def Call(c): return {'t': 'if', 'form': 'call', 'cs': [{'c': c, 'b': []}], 'he': False, 'e': []}
 def Let(bs, b): return {'t': 'let', 'bs': [{'n': n, 'c': c} for n, c in bs], 'b': b}
 def With(c, b, mapping=False, only=False): return {'t': 'with', 'c': c, 'b': b, 'mapping': mapping, 'only': only}
-def In(c, b, e=None, mapping=False, nopush=False, reverse=False, pre=False, sort=None, prefix='p', start=0, size=0, prepfail=None):
+def In(c, b, e=None, mapping=False, nopush=False, reverse=False, pre=False, sort=None, prefix='p', start=0, size=0, prepfail=None, byend=False):
     return {'t': 'in', 'c': c, 'b': b, 'he': e is not None, 'e': e or [], 'mapping': mapping,
             'nopush': nopush, 'reverse': reverse, 'pre': bool(pre), 'prefix': prefix,
-            'sorted': sort is not None, 'sortkey': sort or '', 'bs': (start or 1) if size else 0, 'bz': size,
+            'sorted': sort is not None, 'sortkey': sort or '', 'bs': (start or 1) if size else 0, 'bz': size, 'be': bool(byend),
             'prepfail': bool(prepfail), 'pf': prepfail or '', 'pfcls': 'KeyError' if prepfail == 'size' else 'NameError'}
 def Try(b, hs, e=None): return {'t': 'try', 'b': b, 'hs': [{'names': list(n), 'b': hb} for n, hb in hs], 'he': e is not None, 'e': e or []}
 def TryF(b, f): return {'t': 'tryf', 'b': b, 'f': f}
@@ -237,7 +237,8 @@ def pr(prog, sty='dtml'):
             if n.get('sorted'):
                 a += ' sort=' + (n['sortkey'] or 'sequence-item')
             if n.get('bz'):
-                a += ' start=%d size=%d' % (n['bs'], n['bz'])
+                # the same window written with an explicit end (which may lie beyond the sequence: the tag clamps it)
+                a += (' start=%d end=%d' % (n['bs'], n['bs'] + n['bz'] - 1)) if n.get('be') else ' start=%d size=%d' % (n['bs'], n['bz'])
             if n.get('pf'):
                 a += ' ' + {'sort_expr': 'sort_expr="nope"', 'reverse_expr': 'reverse_expr="nope"', 'size': 'size=nope'}[n['pf']]
             out.append(o('in', a) + pr(n['b'], sty) + ((o('else') + pr(n['e'], sty)) if n['he'] else '') + c('in'))
